@@ -120,7 +120,11 @@ func checkpointScenario(c *sup.Ctx, r *rng.R, props []string) {
 	if keysOnly {
 		c.Count("checkpoint_scenarios_with_a_keysonly_feed", 1)
 	}
-	res, msg, detail := conc.CheckpointRun(m, writers, 20+r.Intn(30), 4, restarts, keysOnly, r)
+	nkeys := 4
+	if keysOnly {
+		nkeys = 12 // more keys, fewer rewrites: a version that a run skipped is more likely to be its key's final one
+	}
+	res, msg, detail := conc.CheckpointRun(m, writers, 20+r.Intn(30), nkeys, restarts, keysOnly, r)
 	c.Count("checkpoint_scenarios", 1)
 	c.Count("feed_runs", int64(res.Runs))
 	c.Count("feed_stops", int64(res.Runs-1))
@@ -197,13 +201,35 @@ func init() {
 	})
 	sup.Register(&sup.Check{
 		Prop: "C15", Level: "exploration",
-		Rule: "1-6 writers (regular API) run while a feed with a checkpoint prefix in resume mode is started through alternating handles, allowed a PRNG-chosen number of callbacks (the callback parks on a channel so events stay queued), stopped by its terminator, its checkpoint document read, 3-8 times; then a Dump resume run catches up; oracle: the checkpoint's last_seq never exceeds the highest CAS the feed delivered so far, the final version (read-back CAS) of every key is in the union of the runs' deliveries, and the newest version delivered for a key describes its final state (deletion iff it has no body, the same body bytes); while the feed is stopped, keys of their own are re-created over tombstones that earlier runs already delivered and checkpointed (Add, AddRaw, WriteCas 0, Set, WriteResurrectionWithXattrs, Update) and never touched again, so only a resume can deliver their final version; (two collections) one bucket-level feed over two collections with one ID and checkpoint prefix is run, stopped after a PRNG-chosen number of callbacks and resumed while both collections are written between the runs: every document of either collection is delivered by some run and each collection's checkpoint stays at or below what was delivered for it; schedule noise at the commit->post hook; also under the race detector; (neighbour feed) plain live feeds registered before / after the checkpointed one, one of them stopped by its terminator, then two writes, stop, resumed dump: both must have been delivered; cell = (writers, restarts, stops while writers active, bucket type)",
+		Rule: "1-6 writers (regular API) run while a feed with a checkpoint prefix in resume mode is started through alternating handles, allowed a PRNG-chosen number of callbacks (the callback parks on a channel so events stay queued), stopped by its terminator, its checkpoint document read, 3-8 times; then a Dump resume run catches up; oracle: the checkpoint's last_seq never exceeds the highest CAS the feed delivered so far, the final version (read-back CAS) of every key is in the union of the runs' deliveries, and the newest version delivered for a key describes its final state (deletion iff it has no body, the same body bytes); while the feed is stopped, keys of their own are re-created over tombstones that earlier runs already delivered and checkpointed (Add, AddRaw, WriteCas 0, Set, WriteResurrectionWithXattrs, Update) and never touched again, so only a resume can deliver their final version; (two collections) one bucket-level feed over two collections with one ID and checkpoint prefix is run, stopped after a PRNG-chosen number of callbacks and resumed while both collections are written between the runs: every document of either collection is delivered by some run and each collection's checkpoint stays at or below what was delivered for it; schedule noise at the commit->post hook; also under the race detector; (neighbour feed) plain live feeds registered before / after the checkpointed one, one of them stopped by its terminator, then two writes, stop, resumed dump: both must have been delivered; a third of the checkpoint scenarios use a KeysOnly feed; (queued rewrites) keys written again behind later ones while the callback is parked, PRNG-chosen number of callbacks released, stop, resumed dump; cell = (writers, restarts, stops while writers active, bucket type)",
 		Assumptions: []string{"the checkpoint document itself is excluded from the must-deliver set (it is written by the feed)", "stops are sampled at PRNG-chosen callback counts, not at every queue position"},
 		Parts: []sup.Part{
 			mk("C15", "checkpoint-restarts", 1500, 30000, false, checkpointScenario),
 			mk("C15", "checkpoint-restarts-race", 60, 2400, true, checkpointScenario),
 			mk("C15", "checkpoint-restarts-two-collections", 300, 6000, false, multiCheckpointScenario),
 			mk("C15", "neighbour-feed-stopped", 60, 1200, false, func(c *sup.Ctx, r *rng.R, _ []string) { bystanderStopScenario(c, r) }),
+			mk("C15", "rewrites-queued-behind-a-parked-callback", 200, 4000, false, func(c *sup.Ctx, r *rng.R, _ []string) {
+				disk := c.Local%2 == 1
+				m, err := conc.OpenMulti(c.Tmp, disk, 1+r.Intn(2), 1)
+				if err != nil {
+					c.Incon("cannot open bucket: " + err.Error())
+					return
+				}
+				defer m.Close()
+				keysOnly := (c.Local/2)%2 == 1
+				msg, info := conc.QueuedRewriteRun(m, keysOnly, r)
+				c.Count("queued_rewrite_scenarios", 1)
+				c.Cell(fmt.Sprintf("queued-rewrite|%s|keysonly=%v", ifStr(disk, "disk", "mem"), keysOnly))
+				if msg != "" {
+					k, text := splitKind(msg)
+					if k == "setup" {
+						c.Incon(text)
+					} else {
+						c.Viol([]string{"C15"}, "queued-rewrite|"+k, text, info)
+					}
+				}
+				c.Sample(info)
+			}),
 		},
 		RaceOwner: func(string) bool { return false },
 		Floor: func(tier string, m *sup.Merged) string {
